@@ -157,6 +157,14 @@ func runC08(w *World) *Result {
 	LexDecodeRule(w, r, "R-C08-lexdecode")
 	r.Rule("R-C08-state", "converted literal text is not kept on the transpiler object from one target to the next (no state across Transpile calls)", 1)
 	c14TranspileState(w, r, "R-C08-state")
+	r.Rule("R-C08-driver", "the driver never works on the text of a string itself: length, subscript, comparison and concatenation of strings are handed to the converter on every path (the text it holds is the escaped form of one target)", 3)
+	ProtoRule(w, r, "R-C08-driver", func(n string) bool {
+		switch n {
+		case "Len", "StringSubscript", "StringLiteral", "Comparison", "BinaryOperation":
+			return true
+		}
+		return false
+	})
 	b, err := BuildBackend(w, "bash")
 	if err != nil {
 		r.Bad("R-C08-quote", "extract:bash", "-", err.Error())
